@@ -78,7 +78,9 @@ def find(lst: list[dict], key: str, value: Any) -> dict | None:
         cmp = mappyfile.find(d["layers"], "name", "Layer2")
         assert cmp["name"] == "Layer2"
     """
-    return next((item for item in lst if item[key.lower()] == value), None)
+    k = key.lower()
+    # items without the key are skipped (and not modified by the lookup)
+    return next((item for item in lst if k in item and item[k] == value), None)
 
 
 def findall(lst: list[dict], key: str, value: Any) -> list[dict]:
@@ -136,7 +138,10 @@ def findall(lst: list[dict], key: str, value: Any) -> list[dict]:
         layers = mappyfile.findall(d["layers"], "group", "test")
         assert len(layers) == 2
     """
-    return [item for item in lst if item[key.lower()] and item[key.lower()] in value]
+    k = key.lower()
+    # a single value has to match exactly; a list, tuple or set gives the accepted values
+    values = value if isinstance(value, (list, tuple, set)) else [value]
+    return [item for item in lst if k in item and item[k] in values]
 
 
 def findunique(lst, key):
